@@ -69,3 +69,27 @@ def c19(ctx):
         not_decided=['the floating-point claims (result in 0..maxv-1, equals exact floor below 2^53): rounding behaviour of the double '
                      'expression is not analysed'],
         extra=extra)
+
+
+from . import rules_iface as I
+
+
+def _dbg(ctx):
+    """scratch: run interface rules"""
+    for prog in programs(ctx):
+        I.r_dispatch(ctx, prog)
+        I.r_layout(ctx, prog)
+        I.r_apiguard(ctx, prog)
+        I.r_retdef(ctx, prog)
+        from . import rules_decode as D
+        allc = [1, 2, 3, 5]
+        D.r_dup(ctx, prog, allc)
+        D.r_setavail(ctx, prog, allc)
+        D.r_rs_threshold(ctx, prog, allc)
+        D.r_complete(ctx, prog, allc)
+        D.r_retset(ctx, prog, allc)
+        D.r_finish_truth(ctx, prog, allc)
+    return dict(explanation='x', decides=[], not_decided=[])
+
+
+PROPS['DBG'] = _dbg
